@@ -17,7 +17,7 @@ from sim.models import events as M
 
 LEVEL = "exploration"
 TIERS = {
-    "quick": {"runs": 700, "max_wall": 170, "chunk": 4},
+    "quick": {"runs": 1200, "max_wall": 170, "chunk": 4},
     "thorough": {"runs": 40000, "max_wall": 1700, "chunk": 8},
 }
 RULE = (
@@ -31,7 +31,7 @@ STATE_MEASURE = "(propagator kind, call kind, direction/start class, #live itera
 PROBES = [
     "event_items", "event_checked", "pair_checked_no_crossing", "crossing_with_event", "bisect_sharpness_checked", "label_checked",
     "two_listeners_fired_same_step", "listener_reused_sequentially", "reuse_after_cancel", "two_live_tasks_same_object",
-    "visibility_skipped_below_horizon", "visibility_caller_list_reused", "iteration_started_from_an_event_state", "sample_exactly_on_a_zero", "light_model_checked", "condition_false_no_event",
+    "visibility_skipped_below_horizon", "visibility_caller_list_reused", "iteration_started_from_an_event_state", "sample_exactly_on_a_zero", "ephem_iterated_from_just_after_a_crossing", "light_model_checked", "condition_false_no_event",
     "interleaved_shared_listener_interference",
 ]
 REAL_VS_STUB = "real: listeners, Speaker.listen/_bisect, propagators, Ephem, stations, frames, analytic Sun; stub: wall clock (virtual, jumped before TerminatorListener()), EOP storage (simulated disk); oracle: pristine node for states at arbitrary dates + independent numpy models of every watched quantity"
@@ -95,7 +95,7 @@ def gen_plan(rng, tier, i):
             st["mask"] = [az, [round(rng.uniform(0.0, 0.35), 3) for _ in range(n)]]
         stations.append(st)
     for sp in pool:
-        if sp["kind"] == "ephem" and rng.random() < 0.3:
+        if sp["kind"] == "ephem" and rng.random() < 0.5:
             sp["in_frame"] = rng.choice(stations)["name"]  # the ephemeris is expressed in the topocentric frame of a station
     listeners = []
     for _ in range(rng.randint(2, 5)):
@@ -105,6 +105,8 @@ def gen_plan(rng, tier, i):
             if ls["type"] == "mask" and not stations[ls["station"]].get("mask"):
                 ls = {"type": "signal", "station": ls["station"], "elev": 0.05}
         listeners.append(ls)
+    if any(sp.get("in_frame") for sp in pool) and not any(l_["type"] == "light" for l_ in listeners):
+        listeners.append({"type": "light", "ltype": rng.choice(["umbra", "penumbra"])})  # shadow events of an ephemeris given in a topocentric frame
     caller_lists = [sorted(rng.sample(range(len(listeners)), rng.randint(0, min(2, len(listeners))))) for _ in range(rng.randint(0, 2))]
     knobs = {
         "pool": pool,
@@ -114,7 +116,7 @@ def gen_plan(rng, tier, i):
         "real_eop": real_eop,
         "ephem_order": rng.choice([8, 8, 6, 10]),
         "eps_bisect_us": rng.choice([1, 1, 10, 1000]),
-        "post": rng.choice([None, None, {"kind": rng.choice(["from_event", "sample_on_zero"]), "kep": gen_iter.rand_kep(rng), "epoch": [rng.randint(55000, 59000), float(rng.randint(0, 86399))], "step_s": rng.choice([60, 120, 300])}]),
+        "post": rng.choice([None, None, {"kind": rng.choice(["from_event", "sample_on_zero", "ephem_start_after_crossing"]), "kep": gen_iter.rand_kep(rng), "epoch": [rng.randint(55000, 59000), float(rng.randint(0, 86399))], "step_s": rng.choice([60, 120, 300])}]),
     }
     ops = []
     ntasks = 0
@@ -643,6 +645,7 @@ class Hooks:
 
 def post_scenarios(sim, plan, ctx):
     """Two short scripted histories on fresh objects of the run's node (after the scheduled operations):
+    (C is described at its branch.)
     A. an iteration started *from an event state* (what find_event / a search loop hands back) with the same listener: the samples
        of the new iteration are samples, not events;
     B. an orbit given exactly on a zero of the watched quantity (at its ascending node) iterated from its own epoch: the crossing
@@ -684,6 +687,32 @@ def post_scenarios(sim, plan, ctx):
                             "sound",
                             {"kind": "sample_flagged_as_event", "scenario": "from_event"},
                             f"post-scenario A: iterating from the state of a '{ev.event}' event with the same listener, the plain sample at +{off:.1f} s carries the event '{p.event}'",
+                        )
+        elif post["kind"] == "ephem_start_after_crossing":
+            # C. an ephemeris iterated over its own points (no step) from a point that lies just *after* a crossing, forwards, and
+            #    from the point just *before* it, backwards: nothing is reported outside the requested span
+            orb = n.Orbit(kep, date, "keplerian", "EME2000", Kepler())
+            eph = orb.ephem(start=date, stop=td(seconds=1.3 * period), step=td(seconds=step))
+            pts = list(eph)
+            zs = [float(np.asarray(p_.copy(form="cartesian"))[2]) for p_ in pts]
+            ks = [k_ for k_ in range(1, len(pts) - 2) if (zs[k_] > 0) != (zs[k_ + 1] > 0)]
+            if not ks:
+                return
+            k_ = ks[0]
+            lis = L.NodeListener()
+            ctx.probe("ephem_iterated_from_just_after_a_crossing")
+            for direction, start, stop in (("forward", pts[k_ + 1].date, None), ("backward", pts[k_].date, pts[0].date)):
+                kw = {"start": start, "listeners": lis}
+                if stop is not None:
+                    kw["stop"] = stop
+                for p_ in eph.iter(**kw):
+                    off = (p_.date - start).total_seconds()
+                    ctx.checks += 1
+                    if (off < -1e-3) if direction == "forward" else (off > 1e-3):
+                        ctx.violate(
+                            "event-between-samples",
+                            {"kind": "event_outside_sampled_span", "scenario": "ephem_start_after_crossing", "direction": direction},
+                            f"post-scenario C: ephemeris iterated {direction} over its own points from {start}: an item ({'event ' + str(p_.event) if p_.event else 'sample'}) is dated {off:+.3f} s from the start, outside the requested span",
                         )
         else:
             kep[4] = 0.0  # argument of perigee
